@@ -41,8 +41,8 @@ type vfC07Tx struct {
 
 type vfC07World struct {
 	dir     string
-	readers []*GsfaReader      // newest epoch first
-	hist    []vfC07Tx          // complete history of the address, newest first
+	readers []*GsfaReader // newest epoch first
+	hist    []vfC07Tx     // complete history of the address, newest first
 	byLoc   map[[2]uint64]vfC07Tx
 	multi   *GsfaReaderMultiepoch
 }
